@@ -37,10 +37,11 @@ func (j *c09Job) lines() []string {
 }
 
 type c09Gen struct {
-	r      *Rand
-	ids    []string // job ids of the pool
-	inputs bool     // the header declares workflow inputs (include, exclude, foo)
-	feats  []string
+	r       *Rand
+	ids     []string // job ids of the pool
+	inputs  bool     // the header declares workflow inputs (include, exclude, foo)
+	noShell bool     // the header must not set a workflow default shell
+	feats   []string
 }
 
 func (g *c09Gen) feat(f string) { g.feats = append(g.feats, f) }
@@ -233,7 +234,7 @@ func (g *c09Gen) header() *c09Header {
 		L("env:")
 		L("  CI_X: " + g.tmpl("1"))
 	}
-	if r.Chance(1, 2) {
+	if r.Chance(1, 2) && !g.noShell {
 		h.Shell = r.Pick([]string{"bash", "bash", "sh", "python", "pwsh", "fish", "bash -e {0}"})
 		L("defaults:")
 		L("  run:")
@@ -569,17 +570,74 @@ func (g *c09Gen) container(ind int, key string) []string {
 	return out
 }
 
+// c09Want forces (+1) or forbids (-1) a per-job section; 0 leaves it to chance. Observe names the
+// per-job state ("matrix", "stepids", "needs", "shell", "windows", "container", "env") for which
+// the job gets constructs that would notice state left behind by a preceding job.
+type c09Want struct {
+	Call, Matrix, StepIDs, Shell, Windows, Container, Services, Env, Permissions, Concurrency int
+	Observe                                                                                   string
+}
+
+// dec draws the random decision first (so that forcing does not shift the stream) and then applies
+// the override.
+func (g *c09Gen) dec(want, num, den int) bool {
+	c := g.r.Chance(num, den)
+	switch {
+	case want > 0:
+		return true
+	case want < 0:
+		return false
+	}
+	return c
+}
+
+// observers returns "KEY: ${{ expr }}" pairs whose diagnostics depend on the given per-job state.
+// Every reference sits in its own scalar, so one error cannot hide another.
+func (g *c09Gen) observers(state string) []c09KV {
+	var kv []c09KV
+	switch state {
+	case "matrix":
+		for _, p := range append(append([]string{}, c09MatrixProps...), "shell", "extra", "k") {
+			kv = append(kv, c09KV{"m_" + p, "${{ matrix." + p + " }}"})
+		}
+		kv = append(kv, c09KV{"m_a", "${{ matrix.x.a }}"}, c09KV{"m_all", "${{ toJSON(matrix) }}"})
+	case "stepids":
+		for _, id := range c09StepIDs {
+			kv = append(kv, c09KV{"s_" + strings.ToLower(id), "${{ steps." + strings.ToLower(id) + ".outputs.v }}"})
+		}
+		kv = append(kv, c09KV{"s_all", "${{ toJSON(steps) }}"})
+	case "needs":
+		for _, id := range g.ids {
+			id = strings.ToLower(id)
+			kv = append(kv, c09KV{"n_" + strings.ReplaceAll(id, "-", "_"), "${{ needs." + id + ".result }}"})
+		}
+		kv = append(kv, c09KV{"n_all", "${{ needs.*.result }}"})
+	case "container", "services":
+		kv = append(kv, c09KV{"c_id", "${{ job.container.id }}"}, c09KV{"c_db", "${{ job.services.db.id }}"}, c09KV{"c_redis", "${{ job.services.redis.ports.p }}"})
+	case "env":
+		kv = append(kv, c09KV{"e_foo", "${{ env.FOO }}"}, c09KV{"e_ci", "${{ env.CI_X }}"}, c09KV{"e_all", "${{ toJSON(env) }}"})
+	}
+	return kv
+}
+
 // job generates pool job idx. deps are the jobs it needs.
-func (g *c09Gen) job(idx int, deps []int) *c09Job {
+func (g *c09Gen) job(idx int, deps []int) *c09Job { return g.jobWant(idx, deps, c09Want{}) }
+
+func (g *c09Gen) jobWant(idx int, deps []int, w c09Want) *c09Job {
 	r := g.r
 	g.feats = nil
 	j := &c09Job{ID: g.ids[idx], Needs: deps}
 	L := func(n int, s string) { j.Head = append(j.Head, c09Indent(n, s)) }
 	L(2, j.ID+":")
+	isCall := g.dec(w.Call, 1, 6)
+	obs := g.observers(w.Observe)
 	if r.Chance(1, 2) {
 		L(4, "name: "+g.tmpl("job"))
+	} else if isCall && w.Observe == "matrix" {
+		L(4, "name: job ${{ matrix.os }}")
 	}
 	if len(deps) > 0 {
+		g.feat("needs")
 		var names []string
 		for _, d := range deps {
 			n := g.ids[d]
@@ -607,24 +665,141 @@ func (g *c09Gen) job(idx int, deps []int) *c09Job {
 	if r.Chance(1, 4) {
 		L(4, "if: "+g.cond())
 		g.feat("job-if")
+	} else if isCall && w.Observe == "matrix" {
+		L(4, "if: matrix.y == 1")
+	}
+	permsAndConcurrency := func() {
+		if g.dec(w.Permissions, 1, 8) {
+			g.feat("permissions")
+			if r.Bool() {
+				L(4, "permissions:")
+				L(6, r.Pick([]string{"contents", "issues", "nope"})+": "+r.Pick([]string{"read", "write", "all"}))
+			} else {
+				L(4, "permissions: "+r.Pick([]string{"read-all", "none-all"}))
+			}
+		}
+		if g.dec(w.Concurrency, 1, 10) {
+			g.feat("concurrency")
+			L(4, "concurrency:")
+			L(6, "group: "+g.tmpl("grp"))
+			L(6, "cancel-in-progress: "+r.Pick([]string{"true", "${{ " + g.expr(1) + " }}"}))
+		}
+	}
+	strategy := func(matrixOS bool, p int) {
+		if matrixOS || g.dec(w.Matrix, 1, p) {
+			g.feat("matrix")
+			L(4, "strategy:")
+			if r.Chance(1, 5) {
+				L(6, "fail-fast: "+r.Pick([]string{"false", "${{ " + g.expr(1) + " }}"}))
+			}
+			if r.Chance(1, 8) {
+				L(6, "max-parallel: "+r.Pick([]string{"2", "${{ " + g.expr(1) + " }}"}))
+			}
+			if matrixOS {
+				L(6, "matrix:")
+				L(8, "os:")
+				for _, v := range g.matrixValue(8) {
+					L(10, "- "+v)
+				}
+			} else {
+				j.Head = append(j.Head, g.matrix(6, deps)...)
+			}
+		}
+	}
+	jobEnv := func() {
+		if g.dec(w.Env, 1, 3) {
+			g.feat("job-env")
+			g.feat("env")
+			L(4, "env:")
+			n := r.Range(1, 2)
+			for i := 0; i < n; i++ {
+				L(6, r.Pick([]string{"FOO", "CI_X", "BAD NAME", "K_${{ matrix.x }}"})+": "+g.tmpl("v"))
+			}
+		}
+	}
+	jobShell := func() {
+		if g.dec(w.Shell, 2, 5) {
+			sh := r.Pick([]string{"bash", "sh", "python", "python", "pwsh", "cmd", "powershell", "fish", "bash -e {0}", "${{ matrix.shell }}"})
+			L(4, "defaults:")
+			L(6, "run:")
+			if w.Shell <= 0 && r.Chance(1, 8) {
+				L(8, "working-directory: "+g.tmpl("src"))
+			} else {
+				g.feat("job-shell:" + sh)
+				g.feat("shell")
+				L(8, "shell: "+sh)
+			}
+		}
+	}
+	containers := func() {
+		if g.dec(w.Container, 1, 5) {
+			g.feat("container")
+			j.Head = append(j.Head, g.container(4, "container")...)
+		}
+		if g.dec(w.Services, 1, 6) {
+			g.feat("services")
+			L(4, "services:")
+			j.Head = append(j.Head, g.container(6, r.Pick([]string{"db", "redis"}))...)
+		}
 	}
 
-	// reusable workflow call
-	if r.Chance(1, 12) {
+	// reusable workflow call: every section the parser accepts on such a job, and (as a defect)
+	// sections that are only valid on jobs with steps
+	if isCall {
 		g.feat("call-job")
-		L(4, "uses: "+r.Pick([]string{"octo/repo/.github/workflows/ci.yml@v1", "octo/repo/.github/workflows/ci.yml@v1", "octo/repo@v1", "octo/ci.yml"}))
-		if r.Bool() {
+		L(4, "uses: "+r.Pick([]string{"octo/repo/.github/workflows/ci.yml@v1", "octo/repo/.github/workflows/ci.yml@v1", "octo/repo/.github/workflows/ci.yml@v1", "octo/repo@v1", "octo/ci.yml"}))
+		permsAndConcurrency()
+		strategy(false, 2)
+		if len(obs) > 0 || r.Chance(2, 3) {
 			L(4, "with:")
-			L(6, "a: "+g.tmpl("v"))
+			n := r.Range(0, 2)
+			if len(obs) == 0 && n == 0 {
+				n = 1
+			}
+			for i := 0; i < n; i++ {
+				L(6, r.Pick([]string{"a", "b", "target"})+fmt.Sprint(i)+": "+r.Pick([]string{g.tmpl("v"), "${{ matrix." + r.Pick(c09MatrixProps) + " }}", "${{ matrix." + r.Pick(c09MatrixProps) + ".a }}", "${{ needs." + strings.ToLower(r.Pick(g.ids)) + ".outputs.o1 }}"}))
+			}
+			for _, kv := range obs {
+				L(6, kv.k+": "+kv.v)
+			}
 		}
 		switch r.Intn(4) {
 		case 0:
 			L(4, "secrets: inherit")
 		case 1:
 			L(4, "secrets:")
-			L(6, "TOKEN: "+g.tmpl("t"))
-		case 2:
-			L(4, "runs-on: ubuntu-latest") // not allowed together with uses
+			L(6, "TOKEN: "+r.Pick([]string{g.tmpl("t"), "${{ secrets.TOKEN }}", "${{ matrix.x }}"}))
+		}
+		// sections that are not available together with "uses" (parser error; the sections are kept in
+		// the syntax tree and still visited)
+		forced := w.Shell > 0 || w.Windows > 0 || w.Container > 0 || w.Services > 0 || w.Env > 0
+		if forced || r.Chance(1, 5) {
+			g.feat("call-job-with-steps-only-sections")
+			if w.Windows > 0 {
+				L(4, "runs-on: windows-latest")
+				g.feat("windows")
+			} else if !forced && r.Bool() {
+				L(4, "runs-on: "+r.Pick([]string{"ubuntu-latest", "windows-latest"}))
+			}
+			if forced {
+				w2 := w
+				if w2.Env == 0 {
+					w2.Env = -1
+				}
+				if w2.Shell == 0 {
+					w2.Shell = -1
+				}
+				if w2.Container == 0 {
+					w2.Container = -1
+				}
+				if w2.Services == 0 {
+					w2.Services = -1
+				}
+				w = w2
+			}
+			jobEnv()
+			jobShell()
+			containers()
 		}
 		j.Feats = g.feats
 		return j
@@ -632,6 +807,15 @@ func (g *c09Gen) job(idx int, deps []int) *c09Job {
 
 	// runs-on
 	ro := r.Intn(24)
+	if w.Windows > 0 {
+		ro = []int{8, 13, 20}[r.Intn(3)]
+	} else if w.Windows < 0 {
+		if w.Observe == "windows" {
+			ro = 23 // the platform of a preceding job is only observable when runs-on is missing
+		} else if ro >= 8 && ro <= 10 || ro == 13 || ro == 20 {
+			ro = 0
+		}
+	}
 	matrixOS := false
 	switch {
 	case ro < 8:
@@ -657,8 +841,12 @@ func (g *c09Gen) job(idx int, deps []int) *c09Job {
 	case ro == 16:
 		L(4, "runs-on: ubuntu-99.04")
 	case ro == 17, ro == 18:
-		L(4, "runs-on: ${{ matrix.os }}")
-		matrixOS = true
+		if w.Matrix < 0 {
+			L(4, "runs-on: ubuntu-latest")
+		} else {
+			L(4, "runs-on: ${{ matrix.os }}")
+			matrixOS = true
+		}
 	case ro == 19:
 		L(4, "runs-on:")
 		L(6, "group: g1")
@@ -678,19 +866,7 @@ func (g *c09Gen) job(idx int, deps []int) *c09Job {
 	default:
 		g.feat("no-runs-on") // defect: runs-on is missing
 	}
-	if r.Chance(1, 8) {
-		switch r.Intn(3) {
-		case 0:
-			L(4, "permissions:")
-			L(6, r.Pick([]string{"contents", "issues", "nope"})+": "+r.Pick([]string{"read", "write", "all"}))
-		case 1:
-			L(4, "permissions: "+r.Pick([]string{"read-all", "none-all"}))
-		default:
-			L(4, "concurrency:")
-			L(6, "group: "+g.tmpl("grp"))
-			L(6, "cancel-in-progress: "+r.Pick([]string{"true", "${{ " + g.expr(1) + " }}"}))
-		}
-	}
+	permsAndConcurrency()
 	if r.Chance(1, 8) {
 		L(4, "timeout-minutes: "+r.Pick([]string{"30", "${{ " + g.expr(1) + " }}", "-1"}))
 	}
@@ -706,53 +882,10 @@ func (g *c09Gen) job(idx int, deps []int) *c09Job {
 			L(6, "url: "+g.tmpl("https://x"))
 		}
 	}
-	if r.Chance(1, 3) {
-		g.feat("job-env")
-		L(4, "env:")
-		n := r.Range(1, 2)
-		for i := 0; i < n; i++ {
-			L(6, r.Pick([]string{"FOO", "CI_X", "BAD NAME", "K_${{ matrix.x }}"})+": "+g.tmpl("v"))
-		}
-	}
-	if r.Chance(2, 5) {
-		sh := r.Pick([]string{"bash", "sh", "python", "python", "pwsh", "cmd", "powershell", "fish", "bash -e {0}", "${{ matrix.shell }}"})
-		g.feat("job-shell:" + sh)
-		L(4, "defaults:")
-		L(6, "run:")
-		if r.Chance(1, 8) {
-			L(8, "working-directory: "+g.tmpl("src"))
-		} else {
-			L(8, "shell: "+sh)
-		}
-	}
-	if matrixOS || r.Chance(1, 2) {
-		g.feat("matrix")
-		L(4, "strategy:")
-		if r.Chance(1, 5) {
-			L(6, "fail-fast: "+r.Pick([]string{"false", "${{ " + g.expr(1) + " }}"}))
-		}
-		if r.Chance(1, 8) {
-			L(6, "max-parallel: "+r.Pick([]string{"2", "${{ " + g.expr(1) + " }}"}))
-		}
-		if matrixOS {
-			L(6, "matrix:")
-			L(8, "os:")
-			for _, v := range g.matrixValue(8) {
-				L(10, "- "+v)
-			}
-		} else {
-			j.Head = append(j.Head, g.matrix(6, deps)...)
-		}
-	}
-	if r.Chance(1, 5) {
-		g.feat("container")
-		j.Head = append(j.Head, g.container(4, "container")...)
-	}
-	if r.Chance(1, 6) {
-		g.feat("services")
-		L(4, "services:")
-		j.Head = append(j.Head, g.container(6, r.Pick([]string{"db", "redis"}))...)
-	}
+	jobEnv()
+	jobShell()
+	strategy(matrixOS, 2)
+	containers()
 	if r.Chance(3, 5) {
 		L(4, "outputs:")
 		L(6, "o1: "+g.tmpl("v"))
@@ -769,21 +902,52 @@ func (g *c09Gen) job(idx int, deps []int) *c09Job {
 		L(4, "name: again") // duplicate key (when name was given above, this is a triple)
 		g.feat("dup-job-key")
 	}
-	if r.Chance(1, 20) {
+	if w.Observe == "" && w.StepIDs <= 0 && r.Chance(1, 20) {
 		g.feat("no-steps") // defect: steps is missing
 		j.Feats = g.feats
 		return j
 	}
 	L(4, "steps:")
+	tag := 0
+	if w.Observe != "" {
+		// the observing step comes first so that it sees the state exactly as the preceding job left it
+		st := &c09Step{Tag: tag}
+		tag++
+		st.Lines = append(st.Lines, "      - run: echo FT:issues=2")
+		if len(obs) > 0 {
+			st.Lines = append(st.Lines, "        env:")
+			for _, kv := range obs {
+				st.Lines = append(st.Lines, "          "+kv.k+": "+kv.v)
+			}
+		}
+		j.Steps = append(j.Steps, st)
+		if w.Observe == "windows" || w.Observe == "shell" {
+			j.Steps = append(j.Steps, &c09Step{Tag: tag, Lines: []string{"      - run: print FT:issues=1", "        shell: sh"}})
+			tag++
+			j.Steps = append(j.Steps, &c09Step{Tag: tag, Lines: []string{"      - run: |", "          echo FT:issues=3", "          ls"}})
+			tag++
+		}
+	}
 	n := r.Range(1, 5)
 	for i := 0; i < n; i++ {
-		j.Steps = append(j.Steps, g.step(i, -1))
+		withID := -1
+		switch {
+		case w.StepIDs > 0 && i == 0:
+			withID = 1
+		case w.StepIDs < 0:
+			withID = 0
+		}
+		st := g.step(tag, withID)
+		tag++
+		if st.ID != "" {
+			g.feat("stepids")
+		}
+		j.Steps = append(j.Steps, st)
 	}
 	j.Feats = g.feats
 	return j
 }
 
-// pool generates n jobs; job i may need earlier jobs only, so the needs graph is a DAG.
 func (g *c09Gen) pickIDs(n int) {
 	perm := g.r.Perm(len(c09JobIDPool))
 	g.ids = nil
@@ -832,4 +996,40 @@ func c09Closure(jobs []*c09Job, roots []int) []int {
 		}
 	}
 	return out
+}
+
+func (j *c09Job) has(feat string) bool {
+	for _, f := range j.Feats {
+		if f == feat {
+			return true
+		}
+	}
+	return false
+}
+
+// c09States lists the per-job state the generator knows; a job carrying one is tagged with the
+// feature of the same name.
+var c09States = []string{"matrix", "stepids", "needs", "shell", "windows", "container", "services", "env", "permissions", "concurrency"}
+
+// observes says whether the text of the job contains something whose diagnostics would change if
+// the given state of a preceding job were still around.
+func (j *c09Job) observes(state string) bool {
+	txt := strings.Join(j.lines(), "\n")
+	switch state {
+	case "matrix":
+		return strings.Contains(txt, "matrix.")
+	case "stepids":
+		return strings.Contains(txt, "steps.")
+	case "needs":
+		return strings.Contains(txt, "needs.")
+	case "shell":
+		return strings.Contains(txt, "FT:issues")
+	case "windows":
+		return j.has("no-runs-on") && (strings.Contains(txt, "FT:issues") || strings.Contains(txt, "shell: sh"))
+	case "container", "services":
+		return strings.Contains(txt, "job.container") || strings.Contains(txt, "job.services")
+	case "env":
+		return strings.Contains(txt, "env.")
+	}
+	return true
 }
